@@ -221,81 +221,108 @@ pub enum Expr {
     },
 }
 
-impl std::fmt::Display for Expr {
-    fn fmt(&self, f: &mut std::fmt::Formatter<'_>) -> std::fmt::Result {
+// Binding power of an implied (juxtaposed) product such as `4x`; see `BINDING_POW`
+const JUXTAPOSITION_BIND_POW: f64 = 4.0;
+
+impl Expr {
+    // The text of `self` where `parse_expr` will read it back with the given minimum
+    // binding power: the inverse of the parser, so an operand that the parser would not
+    // take as a whole in that position is parenthesised.
+    fn render(&self, min_bind_pow: f64) -> String {
         match self {
-            Self::Number(n) => write!(f, "{n}"),
-            Self::Variable(v) => write!(f, "{v}"),
-            Self::Constant(c) => write!(f, "{c}"),
-            Self::Function { func, inner } => write!(f, "{func}({inner})"),
-            Self::UnaryOpPrefix { op, value } => write!(f, "{op}{value}"),
-            Self::UnaryOpPostfix { op, value } => {
-                // `(-a)!` is not `-a!`
-                if matches!(**value, Self::UnaryOpPrefix { .. }) {
-                    write!(f, "({value}){op}")
-                } else {
-                    write!(f, "{value}{op}")
-                }
+            Self::Number(n) => format!("{n}"),
+            Self::Variable(v) => v.to_string(),
+            Self::Constant(c) => format!("{c}"),
+            Self::Function { func, inner } => format!("{func}({})", inner.render(0.0)),
+            // the operand of a prefix minus extends over products and powers (see parse_expr)
+            Self::UnaryOpPrefix { op, value } => {
+                format!("{op}{}", value.render(min_bind_pow.max(2.0)))
             }
+            // a factorial applies to the primary in front of it: `(-a)!`, `(a + b)!`
+            Self::UnaryOpPostfix { op, value } => match **value {
+                Self::UnaryOpPrefix { .. } | Self::BinaryOp { paren: false, .. } => {
+                    format!("({}){op}", value.render(0.0))
+                }
+                _ => format!("{}{op}", value.render(0.0)),
+            },
             Self::BinaryOp {
                 op,
                 lhs,
                 rhs,
                 paren,
             } => {
-                // 4 * x   -> 4x
-                // 5 * x^2 -> 5x^2
-                // 2 * π   -> 2π
-                let mut implied: Option<String> = None;
-
-                if *op == Operators::Mul {
-                    implied = match (&**lhs, &**rhs) {
-                        (Self::Number(n), Self::Variable(v)) => Some(format!("{n}{v}")),
-                        (Self::Number(n), Self::Constant(c)) => Some(format!("{n}{c}")),
-                        // not when the power starts with a bare number: 5 * 2^3 is not "52 ^ 3"
-                        (
-                            Self::Number(n),
-                            Self::BinaryOp {
-                                op: Operators::Caret,
-                                lhs: base,
-                                paren: power_paren,
-                                ..
-                            },
-                        ) if *power_paren || !matches!(**base, Self::Number(_)) => {
-                            Some(format!("{n}{rhs}"))
-                        }
-                        (Self::Variable(v), Self::Number(n)) => Some(format!("{v}{n}")),
-                        (Self::Constant(c), Self::Number(n)) => Some(format!("{c}{n}")),
-                        _ => None,
-                    };
-                } else if *op == Operators::Caret {
-                    implied = match (&**lhs, &**rhs) {
-                        (Self::Variable(v), Self::Number(n)) => Some(format!("{v}^{n}")),
-                        (Self::Constant(c), Self::Number(n)) => Some(format!("{c}^{n}")),
-                        _ => None,
-                    };
-                }
-
-                if let Some(s) = implied {
-                    if *paren {
-                        return write!(f, "({s})");
+                let (text, bind_pow) = match self.shorthand() {
+                    Some(text) => text,
+                    None => {
+                        let bind_pow = *BINDING_POW.get(op).unwrap_or(&0.0);
+                        // `(-x)^2` is not `-x ^ 2`: a prefix minus would take the power as operand
+                        let left = match **lhs {
+                            Self::UnaryOpPrefix { .. } if bind_pow > 2.0 => {
+                                format!("({})", lhs.render(0.0))
+                            }
+                            _ => lhs.render(bind_pow),
+                        };
+                        // the parser reads the right operand one level tighter (left associativity)
+                        let right = rhs.render(bind_pow + 1.0);
+                        (format!("{left} {op} {right}"), bind_pow)
                     }
-                    return write!(f, "{s}");
-                }
-                // `(-x)^2` is not `-x ^ 2`
-                let base = if *op == Operators::Caret && matches!(**lhs, Self::UnaryOpPrefix { .. })
-                {
-                    format!("({lhs})")
-                } else {
-                    format!("{lhs}")
                 };
-                if *paren {
-                    write!(f, "({base} {op} {rhs})")
+                if *paren || bind_pow < min_bind_pow {
+                    format!("({text})")
                 } else {
-                    write!(f, "{base} {op} {rhs}")
+                    text
                 }
             }
         }
+    }
+
+    // 4 * x   -> 4x
+    // 5 * x^2 -> 5x^2
+    // 2 * π   -> 2π
+    // together with the binding power of the printed form
+    fn shorthand(&self) -> Option<(String, f64)> {
+        let Self::BinaryOp { op, lhs, rhs, .. } = self else {
+            return None;
+        };
+        if *op == Operators::Mul {
+            let text = match (&**lhs, &**rhs) {
+                (Self::Number(n), Self::Variable(v)) => format!("{n}{v}"),
+                (Self::Number(n), Self::Constant(c)) => format!("{n}{c}"),
+                (
+                    Self::Number(n),
+                    Self::BinaryOp {
+                        op: Operators::Caret,
+                        ..
+                    },
+                ) => {
+                    let power = rhs.render(JUXTAPOSITION_BIND_POW + 1.0);
+                    // not when the power starts with a number: 5 * 2^3 is not "52 ^ 3"
+                    if power.starts_with(|c: char| c.is_ascii_digit() || c == '.') {
+                        return None;
+                    }
+                    format!("{n}{power}")
+                }
+                (Self::Variable(v), Self::Number(n)) => format!("{v}{n}"),
+                (Self::Constant(c), Self::Number(n)) => format!("{c}{n}"),
+                _ => return None,
+            };
+            Some((text, JUXTAPOSITION_BIND_POW))
+        } else if *op == Operators::Caret {
+            let text = match (&**lhs, &**rhs) {
+                (Self::Variable(v), Self::Number(n)) => format!("{v}^{n}"),
+                (Self::Constant(c), Self::Number(n)) => format!("{c}^{n}"),
+                _ => return None,
+            };
+            Some((text, *BINDING_POW.get(op).unwrap_or(&0.0)))
+        } else {
+            None
+        }
+    }
+}
+
+impl std::fmt::Display for Expr {
+    fn fmt(&self, f: &mut std::fmt::Formatter<'_>) -> std::fmt::Result {
+        write!(f, "{}", self.render(0.0))
     }
 }
 
